@@ -88,6 +88,9 @@ pub struct SinkPlan {
     /// from this call on the chunk cap is replaced by the given one (a sink whose behaviour changes
     /// in the middle of one write: a pipe that fills up, a socket whose window opens)
     pub cap_switch: Option<(u64, Option<usize>)>,
+    /// when the disk capacity is reached the sink answers `Ok(0)` instead of an error — the behaviour of
+    /// a fixed-size buffer (`&mut [u8]`, `Cursor<&mut [u8]>`)
+    pub full_is_zero: bool,
 }
 
 impl SinkPlan {
@@ -96,6 +99,7 @@ impl SinkPlan {
             "cap": self.cap,
             "disk_capacity": self.disk_capacity,
             "cap_switch": self.cap_switch.map(|(at, c)| json!({"at": at, "cap": c})),
+            "full_is_zero": self.full_is_zero,
             "faults": self.faults.iter().map(|f| match f.kind {
                 FaultKind::Short(r) => json!({"at": f.at, "kind": "short", "r": r}),
                 FaultKind::Interrupted(b) => json!({"at": f.at, "kind": "interrupted", "burst": b}),
@@ -109,6 +113,7 @@ impl SinkPlan {
             cap: v.get("cap").and_then(|x| x.as_u64()).map(|x| x as usize),
             disk_capacity: v.get("disk_capacity").and_then(|x| x.as_u64()).map(|x| x as usize),
             cap_switch: v.get("cap_switch").filter(|x| !x.is_null()).and_then(|x| Some((x.get("at")?.as_u64()?, x.get("cap").and_then(|c| c.as_u64()).map(|c| c as usize)))),
+            full_is_zero: v.get("full_is_zero").and_then(|x| x.as_bool()).unwrap_or(false),
             faults: Vec::new(),
         };
         for f in v.get("faults")?.as_array()? {
@@ -171,7 +176,7 @@ impl SinkPlan {
         let disk_capacity = if rng.chance(1, 8) { Some(rng.usize_below(len_hint + 1)) } else { None };
         faults.sort_by_key(|f| f.at);
         let cap_switch = if rng.chance(1, 5) { Some((rng.below(calls), *rng.pick(&[None, Some(1usize), Some(3), Some(4096)]))) } else { None };
-        SinkPlan { cap, faults, disk_capacity, cap_switch }
+        SinkPlan { cap, faults, disk_capacity, cap_switch, full_is_zero: rng.chance(1, 2) }
     }
 }
 
@@ -315,6 +320,12 @@ impl<'p> SimSink<'p> {
         }
         if let Some(cap) = self.plan.disk_capacity {
             let remaining = cap.saturating_sub(self.delivered.len());
+            if remaining == 0 && self.plan.full_is_zero {
+                self.fired.zero += 1;
+                self.note_fault(idx);
+                self.log.u64(0xD7 ^ idx);
+                return Ok(0);
+            }
             if remaining == 0 {
                 self.fired.disk_full += 1;
                 self.fired.fatal = true;
